@@ -174,6 +174,8 @@ func runC07(c *Ctx) {
 	p := c.P
 	// clause shared with C11: binding a repeated well-known-type parameter must not panic
 	defer c.ImportRules("C11", "C11.12")
+	// clause shared with C19: the query parameters applied are the client's (parsed before the URL is rewritten)
+	defer c.ImportRules("C19", "C19.4")
 
 	// ---------------------------------------------------------------- C07.1
 	c.Rule("C07.1", "every failure of the parameter setter is invalid_argument", 2)
